@@ -1506,6 +1506,9 @@ class CallMixin(object):
                     return items_
                 if getattr(o, "hash_ordered", False):
                     self.event("hash_order_flow", node, module, st, what="iteration over a set")
+                    if getattr(self, "reverse_sets", False):
+                        # the second object model: a set hands out its elements in another order
+                        return list(reversed(o.items))
                 return list(o.items)
             if o.kind == "map":
                 if o.input_ordered:
